@@ -93,6 +93,13 @@ def conversions(k_max=3, with_gen=True):
     out.append(("emit.argparse/return_with_prose", ("emit_ret", ("argparse", "prose"))))
     out.append(("emit.argparse/return_default_no_prose", ("emit_ret", ("argparse", "noprose"))))
     out.append(("emit.function/return_default_no_prose", ("emit_ret", ("function", "noprose"))))
+    # docstrings that document only the return value (no parameter section at all)
+    out.append(("parse.docstring/numpydoc_returns_only", ("parse_docstring", "\nCount the items\n\nReturns\n-------\nint\n    the number of items\n")))
+    out.append(("parse.docstring/google_returns_only", ("parse_docstring", "Count the items\n\nReturns:\n  int: the number of items\n")))
+    out.append(("parse.function/numpydoc_returns_only->emit.class", ("parse_function_emit_class",
+                'def count_items():\n    """\n    Count the items\n\n    Returns\n    -------\n    int\n        the number of items\n    """\n')))
+    # several parameters whose names end in 'kwargs': which one becomes **kwargs must not depend on set order
+    out.append(("parse.class->emit.function/multi_kwargs", ("parse_class_emit_function", MULTI_KWARGS_SRC)))
     out += twin_conversions()
     if with_gen:
         out.append(("gen/class+prepend_import", ("gen", "class")))
@@ -169,6 +176,11 @@ def twin_conversions():
             out.append(("twin/emit.%s/%s" % (kind, which), ("twin_emit", (kind, which))))
     return out
 
+
+MULTI_KWARGS_SRC = ('class Trainer(object):\n    """\n    Train things\n\n    :cvar epochs: number of epochs\n'
+                    '    :cvar model_kwargs: extra keyword arguments for the model\n    :cvar optimizer_kwargs: extra keyword arguments for the optimizer\n'
+                    '    :cvar loss_kwargs: extra keyword arguments for the loss"""\n    epochs: int = 3\n    model_kwargs: Optional[dict] = None\n'
+                    '    optimizer_kwargs: Optional[dict] = None\n    loss_kwargs: Optional[dict] = None\n')
 
 GEN_MOD = '''
 import os
@@ -252,6 +264,8 @@ def run(spec):
         if kind == "function":
             return to_code(emit.function(ir, function_name=None, function_type=None))
         return to_code(emit.argparse_function(ir))
+    if op == "parse_class_emit_function":
+        return to_code(emit.function(parse.class_(ast.parse(arg).body[0]), function_name="f", function_type="static"))
     if op == "parse_class_plain":
         return canon(parse.class_(ast.parse(arg).body[0]))
     if op == "emit_dup_literal":
